@@ -907,6 +907,9 @@ impl World {
         for m in &merges {
             self.define(rec, m);
         }
+        rec.count(if merges.is_empty() { "action_on:single-head" } else { "action_on:multi-head" });
+        rec.count_n("action_collapse_merges", merges.len() as u64);
+        rec.count(&format!("action_publishes:{}", specs.len()));
         let mut pubs: Vec<KCmd> = vec![];
         if self.o.exists {
             let og = oracle::OGraph::new(&self.o.committed);
